@@ -4,9 +4,11 @@ import ppgen, ppx
 
 PARTIAL = ("proved for every chain shape, table and text: the decision rule of `ifdef/`ifndef chains (C04_select: the skip "
            "list is exactly the complement of the first branch whose condition holds) and the map laws of the define "
-           "table; that a listed subtree has no effect while the loop walks it (the skip flag) is tied by "
-           "correspondence of the evaluator model with the implementation and by the reference-evaluator oracle, "
-           "not yet by a theorem")
+           "table; C04_skipped_subtree_no_effect / C04_skipped_siblings_no_effect: a listed subtree none of whose proper "
+           "descendants is listed is walked without any effect on output, origins, table and line trackers.  The "
+           "hypothesis about descendants is evaluated by the model on every listed node of every correspondence case "
+           "(obligation hypothesis-check), not derived from the shape of the parser's trees; the composition into "
+           "'the output is the text of the selected branches' is tied by correspondence and the reference oracle")
 
 D4_WITNESS = "`ifndef __LINE__\nA\n`elsif UNDEFINED\nB\n`endif\n"
 
@@ -39,6 +41,11 @@ def check(ctx):
     q = ctx.quick()
     pcs = cond_heavy(r, 150 if q else 2500) + subsets(r, 12 if q else 150) + ppx.gen_general(r, 60 if q else 800)
     cases, res, diffs = ppx.correspond(ctx, "preprocess (conditionals) vs PP/Eval.v", pcs, "c04")
+    sk = ctx.cov.get("skip_hypothesis", {})
+    ctx.obl("hypothesis-check:every listed node met with skip off is erasable (C04_skipped_subtree_no_effect applies)",
+            "correspondence", sk.get("failed_case") is None and sk.get("listed_nodes_met", 0) > 0,
+            "met %d listed nodes in %d runs; failing case: %r" % (sk.get("listed_nodes_met", 0), sk.get("cases", 0),
+                                                                  sk.get("failed_case")))
     bad = None
     nk = 0
     for pc, rr in zip(pcs, res):
@@ -55,6 +62,7 @@ def check(ctx):
     ctx.obl("search-oracle:surviving tokens = reference evaluation of IEEE 22.6", "oracle", bad is None, bad[1] if bad else "")
     if bad:
         ppx.report(ctx, "C04", "conditional compilation keeps the wrong text", bad[0], bad[1])
+    ppx.scenario_batch(ctx, "C04", 80 if q else 1500, "c04sc")
     ppx.known_finding_replay(ctx, "C04", "D4-elsif-predefined", ppx.PC({"top.sv": D4_WITNESS}),
                              lambda rr: rr.ok and b"B" in (rr.text or b""))
 
